@@ -409,6 +409,44 @@ def r02c(ck, prog):
                 ck.violation("R02c", "R02c/%s/store" % F.name, site(prog, s),
                              "the parallel loop stores to %s, which is neither private nor the element addressed by all "
                              "collapsed loop indices: two iterations can write it" % tgt.text(), prog.config)
+            # loop-carried reads: an array the iterations store into (each its own element) is read at an element other than the
+            # iteration's own - the value depends on whether the iteration that owns it has run yet
+            own = {}
+            own_dims = {}
+            for s in body.walk():
+                if s.k in ("BinaryOperator", "CompoundAssignOperator") and (s.d["op"] == "=" or s.k == "CompoundAssignOperator"):
+                    t = s.kids[0].strip()
+                    if t.k == "ArraySubscriptExpr":
+                        x = t
+                        while x.k == "ArraySubscriptExpr":
+                            x = x.kids[0].strip(casts=True)
+                        if x.k == "DeclRefExpr" and x.d["did"] not in local and x.d["did"] not in private:
+                            own.setdefault(x.d["did"], set()).add(t.text())
+                            dims = 0
+                            y = t
+                            while y.k == "ArraySubscriptExpr":
+                                y = y.kids[0].strip(casts=True)
+                                dims += 1
+                            own_dims.setdefault(x.d["did"], set()).add(dims)
+            for r in body.find("ArraySubscriptExpr"):
+                pu, cu = r.up(casts=True)
+                if pu is not None and pu.k == "ArraySubscriptExpr" and (cu is pu.kids[0] or cu.within(pu.kids[0])):
+                    continue              # a prefix of a longer subscript chain
+                x = r
+                depth_ = 0
+                while x.k == "ArraySubscriptExpr":
+                    x = x.kids[0].strip(casts=True)
+                    depth_ += 1
+                if not (x.k == "DeclRefExpr" and x.d["did"] in own):
+                    continue
+                from ..model import access_mode as _am
+                if _am(r) != "read":
+                    continue
+                if r.text() in own[x.d["did"]] or depth_ not in own_dims[x.d["did"]]:
+                    continue
+                ck.violation("R02c", "R02c/%s/carried-read" % F.name, site(prog, r),
+                             "the parallel loop reads %s while its iterations store %s: the element belongs to another iteration, which "
+                             "may or may not have run yet - the value read depends on the schedule" % (r.text(), sorted(own[x.d["did"]])[0]), prog.config)
             for c in body.calls():
                 if not c.callee:
                     continue
